@@ -250,6 +250,18 @@ func c14Check(in c14Input) string {
 			return fmt.Sprintf("repeated call #%d (with source information) produced different DSL:\n--- first:\n%s\n--- now:\n%s", i, withSrc, s2)
 		}
 	}
+	// repeated calls on ONE in-memory model (the printer must not depend on, or leave, state in its argument)
+	shared := build()
+	for i := 0; i < 3; i++ {
+		p2, err := transformer.TransformJSONProtoToDSL(shared)
+		if err != nil || p2 != plain {
+			return fmt.Sprintf("call #%d on the same in-memory model produced different DSL:\n--- first:\n%s\n--- now:\n%s", i+1, plain, p2)
+		}
+		s2, err := transformer.TransformJSONProtoToDSL(shared, transformer.WithIncludeSourceInformation(true))
+		if err != nil || s2 != withSrc {
+			return fmt.Sprintf("call #%d on the same in-memory model (with source information) produced different DSL", i+1)
+		}
+	}
 	// JSON encodings
 	for i, js := range in.JSONs {
 		out, err := transformer.TransformJSONStringToDSL(js)
@@ -356,6 +368,20 @@ func c14Draw(rt *rapid.T) c14Input {
 			if rapid.IntRange(0, 3).Draw(rt, "cmod") > 0 {
 				m.Conds[ci].Module = rapid.SampledFrom(mods).Draw(rt, "cmodn")
 				m.Conds[ci].File = rapid.SampledFrom(c14Files).Draw(rt, "cfile")
+			}
+		}
+	}
+	// API-written models need not have the direct assignment first: it only has to be hoistable (a child of the root
+	// union / intersection); the printer moves it
+	for ti := range m.Types {
+		for ri := range m.Types[ti].Rels {
+			rw := m.Types[ti].Rels[ri].Rw
+			if rw != nil && (rw.Kind == gen.Union || rw.Kind == gen.Intersection) && len(rw.Kids) >= 2 && rw.Kids[0].Kind == gen.This &&
+				rapid.IntRange(0, 2).Draw(rt, "thisNotFirst") == 0 {
+				pos := rapid.IntRange(1, len(rw.Kids)-1).Draw(rt, "thisPos")
+				this := rw.Kids[0]
+				copy(rw.Kids, rw.Kids[1:pos+1])
+				rw.Kids[pos] = this
 			}
 		}
 	}
